@@ -6,6 +6,22 @@ package main
 #cgo LDFLAGS: -lzstd
 #include <zstd.h>
 #include <stdlib.h>
+
+// stream_compress compresses src with the streaming API without announcing the size, the way casync does
+// (ZSTD_compressStream / ZSTD_endStream at the default level): the frame carries a window descriptor.
+static size_t stream_compress(const void* src, size_t srcSize, void* dst, size_t dstCap) {
+	ZSTD_CCtx* c = ZSTD_createCCtx();
+	ZSTD_CCtx_setParameter(c, ZSTD_c_compressionLevel, 3);
+	ZSTD_inBuffer in = { src, srcSize, 0 };
+	ZSTD_outBuffer out = { dst, dstCap, 0 };
+	size_t r;
+	do {
+		r = ZSTD_compressStream2(c, &out, &in, ZSTD_e_end);
+		if (ZSTD_isError(r)) { ZSTD_freeCCtx(c); return r; }
+	} while (r != 0);
+	ZSTD_freeCCtx(c);
+	return out.pos;
+}
 */
 import "C"
 
@@ -17,6 +33,29 @@ import (
 )
 
 func main() {
+	if len(os.Args) == 4 && os.Args[1] == "-c" {
+		// zstdcheck -c <plain file> <out file>: write one streaming-API frame
+		b, err := os.ReadFile(os.Args[2])
+		if err != nil {
+			fmt.Println("ERROR", err)
+			os.Exit(1)
+		}
+		out := make([]byte, len(b)+len(b)/8+1024)
+		var p unsafe.Pointer
+		if len(b) > 0 {
+			p = unsafe.Pointer(&b[0])
+		}
+		n := C.stream_compress(p, C.size_t(len(b)), unsafe.Pointer(&out[0]), C.size_t(len(out)))
+		if C.ZSTD_isError(n) != 0 {
+			fmt.Println("ERROR", C.GoString(C.ZSTD_getErrorName(n)))
+			os.Exit(1)
+		}
+		if err := os.WriteFile(os.Args[3], out[:int(n)], 0644); err != nil {
+			fmt.Println("ERROR", err)
+			os.Exit(1)
+		}
+		return
+	}
 	fmt.Printf("libzstd %s\n", C.GoString(C.ZSTD_versionString()))
 	for _, f := range os.Args[1:] {
 		b, err := os.ReadFile(f)
